@@ -21,8 +21,18 @@ class InjectedFault(RuntimeError):
     pass
 
 
+class CostSensitiveLogistic(LogisticRegression):
+    """A classifier whose decision rule is NOT the arg max of its probabilities: the first class is answered as
+    soon as three times its probability beats the others (a cost-sensitive / threshold-tuned model)."""
+
+    def predict(self, X):
+        P = self.predict_proba(X) * numpy.array([3.0] + [1.0] * (len(self.classes_) - 1))
+        return self.classes_[numpy.argmax(P, axis=1)]
+
+
 def _inner(kind):
     return {
+        "cost-logistic": lambda: CostSensitiveLogistic(max_iter=200),
         "linear": LinearRegression,
         "dummy-reg": DummyRegressor,
         "tree-reg": lambda: DecisionTreeRegressor(max_depth=2, random_state=0),
